@@ -51,7 +51,13 @@ class SearchTerms:
     def __str__(self) -> str:
         """Get a String representation of this Search Term."""
         if self.method == PathSearchMethods.REGEX:
+            # The parser cannot un-escape a delimiter which occurs within the
+            # Regular Expression, so select a delimiter which does not.
             safe_term = "/{}/".format(self.term.replace("/", r"\/"))
+            for delim in "/|#@,;:_-+":
+                if delim not in self.term:
+                    safe_term = "{0}{1}{0}".format(delim, self.term)
+                    break
         else:
             # Replace unescaped spaces with escaped spaces
             safe_term = r"\ ".join(
